@@ -11,8 +11,8 @@ LEVEL_TEXT = ("Complete enumeration of base program (9 programs whose lines cont
               "/* */ comments, multi-line comments, blank lines, indentation, blocks, named scopes, macro definitions and applications, "
               "loops, conditionals, data lists, quoted strings, bare mnemonics with trailing comments, long files, form feed / NEL / U+2028 inside comments and strings) x every "
               "line boundary where a statement can stand x 38 faulty statements (24 further single-statement error classes: undefined macro, too few arguments, out-of-range branch, unmapped *=, missing files, ...; undefined symbol in an operand / in .db, bad size "
-              "suffix, bad index register, unterminated string before a newline / at end of input / ending in a backslash, an undefined symbol on a continuation line of a statement that spans lines) x 4 indentations (none, spaces, tab, mixed; for one program also after a 40000 / 70000 / 140000-character comment on the same line) x 3 file "
-              "situations (main file; inside an included file; in the main file after an include). The reported text must name the "
+              "suffix, bad index register, unterminated string before a newline / at end of input / ending in a backslash, an undefined symbol on a continuation line of a statement that spans lines) x 4 indentations (none, spaces, tab, mixed; for one program also after a 40000 / 70000 / 140000-character comment on the same line) x 5 file "
+              "situations (main file; inside an included file; in the main file after an include; inside an included file whose text was included a moment ago under another name; through the command line with -D definitions). The reported text must name the "
               "right file and zero-based line, quote that line, and for lexical errors give the column of the offending character. "
               "Four unit tests check an error on line 0 of a one-line program.")
 LEVEL_NOTE = ("Observed through str(NodeError) / the string returned by assemble_string_with_emitter. Location format accepted: "
@@ -182,7 +182,7 @@ FAULTS = {
 COMMON_FILES = {"ok.ips": b"PATCH" + bytes([0x00, 0x10, 0x00, 0x00, 0x02, 0x41, 0x42]) + b"EOF", "notips.bin": b"this is not an ips patch"}
 # very long lines: the faulty statement preceded ON ITS LINE by a block comment of this many characters (base 'plain' only)
 LONG_PREFIXES = [40000, 70000, 140000]
-SITUATIONS = ["main", "included", "main-after-include"]
+SITUATIONS = ["main", "included", "main-after-include", "included-renamed", "cli-define"]
 INC_VALID = "; included helper file\n\nhelper_value = 0x21\n/* with\n a comment */\n; end of helper\n"
 
 
@@ -272,6 +272,55 @@ def report_of(src, files, filename="main.s"):
     return out, None
 
 
+class _Out:
+    status = "err"
+
+
+def cli_report(src, files):
+    """The program through the command line (in-process) with two -D definitions; the report is what gets logged."""
+    import logging
+    import sys
+    impl.write_files(dict(files, **{"main.s": src}))
+    records = []
+
+    class H(logging.Handler):
+        def emit(self, record):
+            try:
+                records.append(record.getMessage())
+            except Exception:  # noqa: BLE001
+                records.append(str(record.msg))
+
+    h = H()
+    root = logging.getLogger()
+    old_level = root.level
+    logging.disable(logging.NOTSET)
+    root.addHandler(h)
+    saved = sys.argv
+    sys.argv = ["x816", "main.s", "-o", "c17.out", "-D", "C17DEBUG=1", "C17LEVEL=0x20"]
+    code = None
+    try:
+        try:
+            from a816 import cli
+            cli.cli_main()
+            code = 0
+        except SystemExit as e:
+            code = e.code if e.code is not None else 0
+        except BaseException as e:  # noqa: BLE001
+            if isinstance(e, (KeyboardInterrupt, impl.Timeout)):
+                raise
+            records.append(str(e))
+            code = 1
+    finally:
+        sys.argv = saved
+        root.removeHandler(h)
+        root.setLevel(old_level)
+        logging.disable(logging.CRITICAL)
+    out = _Out()
+    if code == 0:
+        return out, None
+    return out, "\n".join(records)
+
+
 def check_report(text, fname, line_no, line_text, col, viol, ctx, fault):
     """The report must name file:line, quote the line and (lexical errors) give the column."""
     m = re.search(re.escape(fname) + r":(\d+)(?::(-?\d+))?", text)
@@ -325,11 +374,23 @@ def run_fault(name, fault, sit):
             elif sit == "included-nested":
                 src = "; main file\n.include 'inc/outer.s'\n"
                 files, fname, line_no = {"inc/outer.s": "; outer include\n\n/* c */\n.include 'inc/part.s'\n", "inc/part.s": text}, "inc/part.s", at + off
+            elif sit == "included-renamed":
+                # the same text was included a moment ago under ANOTHER file name (by another assembly of this process)
+                report_of("; main file\n\n.include 'inc/first.s'\n; after\n", dict(COMMON_FILES, **dict(extra_files, **{"inc/first.s": text})))
+                src = "; main file\n\n.include 'inc/second.s'\n; after\n"
+                files, fname, line_no = {"inc/second.s": text}, "inc/second.s", at + off
+            elif sit == "cli-define":
+                src, files, fname, line_no = text, {}, "main.s", at + off
             else:
                 src = "; main\n.include 'inc/ok.s'\n" + text
                 files, fname, line_no = {"inc/ok.s": INC_VALID}, "main.s", at + 2 + off
             files = dict(COMMON_FILES, **dict(extra_files, **files))
-            out, rep = report_of(src, files)
+            if sit == "cli-define":
+                if indent not in ("", "    ") or at not in (0, 1, len(lines)):
+                    continue
+                out, rep = cli_report(src, files)
+            else:
+                out, rep = report_of(src, files)
             evals += 1
             if at > 0:
                 nt += 1
